@@ -5,6 +5,8 @@ package c15
 import (
 	stdtls "crypto/tls"
 	"fmt"
+	gx509 "github.com/tjfoc/gmsm/x509"
+	"io/ioutil"
 	"strings"
 
 	"github.com/tjfoc/gmsm/gmtls"
@@ -442,6 +444,19 @@ func rawPeer(first []byte, v *tlsk.View) func(e *wire.End) error {
 	}
 }
 
+// withCallbacks switches on the optional server-side hooks (all of them behave like the static
+// configuration), so that the code paths that run before and around them are part of the sweep.
+func withCallbacks(cfg *gmtls.Config, mode int) {
+	p := tlsk.Get()
+	cfg.GetConfigForClient = func(*gmtls.ClientHelloInfo) (*gmtls.Config, error) { return nil, nil }
+	if mode == modeTLS {
+		cfg.GetCertificate = func(*gmtls.ClientHelloInfo) (*gmtls.Certificate, error) { return &p.ECDSA, nil }
+	}
+	cfg.VerifyPeerCertificate = func([][]byte, [][]*gx509.Certificate) error { return nil }
+	cfg.NextProtos = []string{"h2", "http/1.1"}
+	cfg.KeyLogWriter = ioutil.Discard
+}
+
 func helloSweepUnit(mode int, lo, hi uint16) harness.Unit {
 	return harness.Unit{Name: fmt.Sprintf("clienthello-sweep/%s/%04x..%04x", modeNames[mode], lo, hi), Run: func(c *harness.Ctx) {
 		lists := map[string][]uint16{
@@ -460,24 +475,35 @@ func helloSweepUnit(mode int, lo, hi uint16) harness.Unit {
 					if v == 0x0101 {
 						rv = 0x0101
 					}
-					first := wire.Frame(rv, 22, hello)
-					var cv, sv tlsk.View
-					tag := fmt.Sprintf("%s: ClientHello version %04x suites=%s compression=%s", modeNames[mode], v, ln, cn)
-					c.Add("executions", 1)
-					c.Add("transitions", 1)
-					c.DistinctS("states", tag)
-					o := tlsk.Run(rawPeer(first, &cv), tlsk.GMEnd(serverCfg(mode, false), false, app[1], &sv, nil), &cv, &sv, nil)
-					c.DistinctS("outcomes", fmt.Sprintf("%v/%v", o.S.HandshakeErr != nil, o.S.Panic != nil))
-					if o.S.Panic != nil {
-						c.Violate(fmt.Sprintf("panic:server:%s", site(o.S.Stack)), fmt.Sprintf("[%s] server panicked: %v\n%s", tag, o.S.Panic, clip(o.S.Stack, 1200)), nil, tag)
-						continue
-					}
-					if len(o.Stuck) > 0 {
-						c.Violate("hang:clienthello", fmt.Sprintf("[%s] server keeps waiting after the peer closed: %v", tag, o.Stuck), nil, tag)
-						continue
-					}
-					if o.S.Complete || o.S.HandshakeErr == nil {
-						c.Violate("completes-after:clienthello-only", fmt.Sprintf("[%s] the server reports completion although the peer sent only a ClientHello", tag), nil, tag)
+					for _, callbacks := range []bool{false, true} {
+						if callbacks && !(cn == "null" && (ln == "GM+TLS" || ln == "ECC-GCM")) {
+							continue
+						}
+						first := wire.Frame(rv, 22, hello)
+						var cv, sv tlsk.View
+						tag := fmt.Sprintf("%s: ClientHello version %04x suites=%s compression=%s", modeNames[mode], v, ln, cn)
+						c.Add("executions", 1)
+						c.Add("transitions", 1)
+						c.DistinctS("states", tag)
+						scfg := serverCfg(mode, false)
+						if callbacks {
+							// the same sweep against a server that uses every optional callback and list
+							tag += " [server with GetConfigForClient/GetCertificate/VerifyPeerCertificate/NextProtos]"
+							withCallbacks(scfg, mode)
+						}
+						o := tlsk.Run(rawPeer(first, &cv), tlsk.GMEnd(scfg, false, app[1], &sv, nil), &cv, &sv, nil)
+						c.DistinctS("outcomes", fmt.Sprintf("%v/%v", o.S.HandshakeErr != nil, o.S.Panic != nil))
+						if o.S.Panic != nil {
+							c.Violate(fmt.Sprintf("panic:server:%s", site(o.S.Stack)), fmt.Sprintf("[%s] server panicked: %v\n%s", tag, o.S.Panic, clip(o.S.Stack, 1200)), nil, tag)
+							continue
+						}
+						if len(o.Stuck) > 0 {
+							c.Violate("hang:clienthello", fmt.Sprintf("[%s] server keeps waiting after the peer closed: %v", tag, o.Stuck), nil, tag)
+							continue
+						}
+						if o.S.Complete || o.S.HandshakeErr == nil {
+							c.Violate("completes-after:clienthello-only", fmt.Sprintf("[%s] the server reports completion although the peer sent only a ClientHello", tag), nil, tag)
+						}
 					}
 				}
 			}
